@@ -35,13 +35,11 @@ impl WalReader {
     // tolerant reader: skips frames with a bad CRC and counts them
     #[verifier::external_body] pub fn read_all(&mut self) -> (r: Result<Vec<WalEntry>>)
         ensures
-            final(self).seg() == old(self).seg(),
             r.is_ok() && final(self).corrupted() == 0 ==> r.unwrap()@ == seg_entries(old(self).seg()) && seg_clean(old(self).seg()),
     { unimplemented!() }
     // strict reader: Err on the first corrupted frame
     #[verifier::external_body] pub fn read_all_strict(&mut self) -> (r: Result<Vec<WalEntry>>)
         ensures
-            final(self).seg() == old(self).seg(),
             r.is_ok() ==> seg_read_strict(old(self).seg()) && seg_clean(old(self).seg()) && final(self).corrupted() == 0
                 && r.unwrap()@ == seg_entries(old(self).seg()),
     { unimplemented!() }
